@@ -206,6 +206,9 @@ def window_op(chk, rule, facts, C, bd, label, lens, reduce_, op, WN=2, irredunda
     return v
 
 
+STEPS_SEEN = []
+
+
 def window_to_lut(chk, rule, facts, C, bd, label, n, varset, L, reduce_, lut_words, only_high=False):
     """Conversion of a container of L real terms (symbolic only on the variables in varset, e.g. {0, 6, 7} of n = 8:
     low and block-selecting variables) to a Lut: every table bit m of the result, as a function of the term atoms,
@@ -214,7 +217,7 @@ def window_to_lut(chk, rule, facts, C, bd, label, n, varset, L, reduce_, lut_wor
     key = "%s n=%d, %d real term(s) over variables %s" % (label, n, L, sorted(varset))
     try:
         E = ElemKind(facts, C.elem)
-        it = Interp(facts, max_paths=4096, max_steps=200000000)
+        it = Interp(facts, max_paths=4096, max_steps=1500000)    # 30x what the conversions need today (about 47 000 steps at n = 10)
         it.prune = True
         st = State()
         names = ["t%d" % j for j in range(L)]
@@ -304,6 +307,7 @@ def window_to_lut(chk, rule, facts, C, bd, label, n, varset, L, reduce_, lut_wor
                         break
                 if v != PROVED:
                     break
+            STEPS_SEEN.append(it.steps)
             if v == PROVED and covered != space.base:
                 v, d = UNDECIDED, "paths do not cover every choice of terms"
     except Undecided as ex:
